@@ -75,13 +75,42 @@ ENTRIES = {
     return p
 ''',
 }
-EXPECT = {"ClsPlain": [("x", 5), ("y", "s")], "ClsAnn": [("n", 3), ("name", "b")], "fplain": [("p", None), ("q", 3)],
+ENTRIES["ClsInitLater"] = '''class ClsInitLater(object):
+    """
+    ClsInitLater summary
+
+    :cvar size: the size
+    """
+
+    @staticmethod
+    def build(kind):
+        """
+        another method that precedes __init__
+
+        :param kind: the kind
+        """
+        return kind
+
+    def __init__(self, size=4, ratio=0.5, label="l"):
+        """
+        init doc
+
+        :param size: the size
+        :param ratio: the ratio
+        :param label: the label
+        """
+        self.size = size
+'''
+EXPECT = {"ClsInitLater": [("size", 4), ("ratio", 0.5), ("label", "l")], "ClsPlain": [("x", 5), ("y", "s")], "ClsAnn": [("n", 3), ("name", "b")], "fplain": [("p", None), ("q", 3)],
           "fann": [("p", 1), ("q", 0.5)]}
 TYPES = ("class", "function", "argparse")
 TEMPLATES = ("{name}Config", "Gen{name}")
-PREPENDS = {"none": None, "constant": "CONST = 1\n", "import": "import sys\n", "stmt_then_import": '__author__ = "gen"\nimport sys\n'}
+PREPENDS = {"none": None, "constant": "CONST = 1\n", "import": "import sys\n", "stmt_then_import": '__author__ = "gen"\nimport sys\n',
+            "docstring_then_import": '"""Generated module."""\nimport sys\n'}
 IMPORT_FILES = {"none": None, "zero": "VALUE = 1\n", "one": "import os\n\nVALUE = 1\n",
-                "three": "import os\nfrom typing import Optional\nimport json as j\n\nVALUE = 1\n"}
+                "three": "import os\nfrom typing import Optional\nimport json as j\n\nVALUE = 1\n",
+                # given as a dotted path through an alias that the prepend imports (resolved via the prepend's symbols)
+                "alias_dotted": "import os\nimport shutil\n\nVALUE = 2\n"}
 MODNAME = "c19_input_mod"
 
 
@@ -150,7 +179,21 @@ class C19(core.Check):
             with open(os.path.join(d, MODNAME + ".py"), "w") as f:
                 f.write(src)
             imp_path = None
-            if IMPORT_FILES[case["imports"]] is not None:
+            prepend_text = PREPENDS[case["prepend"]]
+            if case["imports"] == "alias_dotted":
+                pkg = os.path.join(d, "c19pkg", "sub")
+                os.makedirs(pkg)
+                with open(os.path.join(d, "c19pkg", "__init__.py"), "w") as f:
+                    f.write("from . import sub\n")
+                with open(os.path.join(pkg, "__init__.py"), "w") as f:
+                    f.write("from . import mod\n")
+                with open(os.path.join(pkg, "mod.py"), "w") as f:
+                    f.write(IMPORT_FILES["alias_dotted"])
+                imp_path = "cp.sub.mod"
+                prepend_text = (prepend_text or "") + "import c19pkg as cp\n"
+                for m in [k for k in sys.modules if k == "c19pkg" or k.startswith("c19pkg.")]:
+                    sys.modules.pop(m, None)
+            elif IMPORT_FILES[case["imports"]] is not None:
                 imp_path = os.path.join(d, "imports_src.py")
                 with open(imp_path, "w") as f:
                     f.write(IMPORT_FILES[case["imports"]])
@@ -167,14 +210,14 @@ class C19(core.Check):
                 try:
                     if case["via"] == "api":
                         gen(name_tpl=case["tpl"], input_mapping=MODNAME + ".MAPPING", type_=case["type"], output_filename=out,
-                            prepend=PREPENDS[case["prepend"]], imports_from_file=imp_path)
+                            prepend=prepend_text, imports_from_file=imp_path)
                     else:
                         from doctrans.__main__ import main
 
                         argv = ["gen", "--name-tpl", case["tpl"], "--input-mapping", MODNAME + ".MAPPING", "--type", case["type"],
                                 "--output-filename", out]
-                        if PREPENDS[case["prepend"]] is not None:
-                            argv += ["--prepend", PREPENDS[case["prepend"]].replace("\n", "\\n")]
+                        if prepend_text is not None:
+                            argv += ["--prepend", prepend_text.replace("\n", "\\n")]
                         if imp_path:
                             argv += ["--imports-from-file", imp_path]
                         main(argv)
@@ -218,10 +261,11 @@ class C19(core.Check):
             head = [stmt_src(n) for n in tree.body[:first_def]]
             whole = [stmt_src(n) for n in tree.body]
             wanted = []
-            if PREPENDS[case["prepend"]]:
-                wanted += [stmt_src(n) for n in ast.parse(PREPENDS[case["prepend"]]).body]
+            if prepend_text:
+                wanted += [stmt_src(n) for n in ast.parse(prepend_text).body]
             if imp_path:
                 wanted += [stmt_src(n) for n in ast.parse(IMPORT_FILES[case["imports"]]).body if isinstance(n, (ast.Import, ast.ImportFrom))]
+            # gen executes the prepend's imports itself: keep the alias package importable while the output is executed
             bad = [w for w in wanted if whole.count(w) != 1 or w not in head]
             sites.append(site(not bad, dict(base, field="prepend_and_imports_once_first"), fail="prepend_or_imports", missing_or_dup=bad[:3]))
             extra = [h for h in head if h not in wanted]
